@@ -18,7 +18,7 @@ def run(tier, seed):
     pack.assume(*COMMON_ASSUME)
     pack.assume('time stamps handed to DAE.store are new (strictly increasing time axis: C06 run-loop invariant)',
                 'not decided by proof: the npz / csv encoders, TDSData loaders, from_csv replay, get_data and the pandas data frames (bounded native stand-ins only)')
-    items = [(O.dae_store('C15', False),), (O.dae_store('C15', True),), (O.unpack_np('C15'),), (O.write_npz('C15'), None, O.replay_write_npz), (O.export_csv('C15'), None, O.replay_export_csv),
+    items = [(O.dae_store('C15', False), None, O.replay_dae_store), (O.dae_store('C15', True), None, O.replay_dae_store), (O.unpack_np('C15'),), (O.write_npz('C15'), None, O.replay_write_npz), (O.export_csv('C15'), None, O.replay_export_csv),
              (O.write_lst('C15'),), (O.to_output_addr('C15'), None, O.replay_to_output_addr), (O.set_output_subidx_tail('C15'), None, O.replay_output_selection)] + [(c,) for c in O.in1d('C15')] + \
             [(T.run('C15', drop=('success=>initialisation-test-not-failed',)), None, O.replay_thinning)]
     run_contracts(pack, items)
